@@ -43,6 +43,12 @@ CLAIMS = {
             "every cycle of the resolved call graph is in the confirmed recursion table, the guard tables of render_output / Redirection::Merge, "
             "that stdin and the captured streams flow unmodified (same stream to same field), and that per-test Cram exit codes come from the divider.",
             "Not decided: pipe semantics, write order of merged streams, behaviour of subprocess under large simultaneous writes, strip-ansi-escapes.", "§4 C13"),
+    "C06": ("Decides that MarkdownIterator::next never ends the iteration after a line was consumed (no `?`/None past the first read, also through "
+            "line-reading helpers), that no character count reaches a str byte-offset sink in src/parsers (index-unit dataflow with function "
+            "summaries), that the fence guard rejects exactly 0..2 leading backticks, that every `x[x.len()-k]` is dominated by a non-emptiness "
+            "guard, the one-increment-per-consumed-line pairing of line_index, that all code lines reach add_testcase_body and end_testcase "
+            "builds the TestCase from the parser state, and that read_file normalises CRLF.",
+            "Not decided: title selection, which info strings count as a language, the shape classification of fence lines beyond the threshold.", "§4 C06"),
 }
 
 PENDING = "static rules for this property are designed (DESIGN.md §4) but not yet implemented in this revision"
